@@ -69,6 +69,18 @@ PROPS = {
                      "and timer expiry; every transcript is compared with the reference model step by step (exactly one response with an equal id and one of "
                      "result/error on the requester's connection only, batch order, nothing for id-less requests and response objects). "
                      "Non-trivial = the scenario contains a batch of >=2 members, a non-numeric id, or an incoming response object; distinct = scenario hash."),
+    "C06": scen("c06", ["default", "default", "default", "tiny"],
+                quick=dict(cases=900, size=50), thorough=dict(cases=40000, size=80, budget_s=3000),
+                rule="rapidcheck-generated hostile traffic on raw, local-socket and HTTP/WebSocket endpoints, several connections interleaved: request objects with a "
+                     "valid skeleton and hostile members (every dispatcher method; ids, params, paths, values, timeouts from 0 to 1e400, access lists, fetch ids "
+                     "of every JSON shape; keys duplicated, case-varied, empty, 120 bytes long; nesting up to 240 levels; 300-byte strings; invalid escapes and "
+                     "UTF-8), batches, peer names of 10..400 bytes followed by logged errors, HTTP fragments incl. an extension offer with too many parameters, "
+                     "WebSocket frames over all 16 opcodes x 32 flag combinations x 3 length encodings with payloads of 0..520 bytes, truncated frames, zero and "
+                     "over-long length prefixes, random byte blobs, disconnects of every kind, timer expiry; under random read chunking (1/3/7 bytes), split "
+                     "deliveries and event-batch orders. Oracle: no AddressSanitizer/UndefinedBehaviorSanitizer report, no signal, no early exit; a witness "
+                     "connection that only sends valid requests stays open and gets every answer; a fresh connection is served at the end. Non-trivial = at "
+                     "least two hostile messages or frames reached a protocol handler; distinct = scenario hash. (All other scenario-based checks run under the "
+                     "same sanitizers and report crashes as violations of their own property.)"),
     "C07": scen("c07", ["default", "default", "small", "default"],
                 quick=dict(cases=1200, size=60), thorough=dict(cases=40000, size=100, budget_s=3000),
                 rule="rapidcheck-generated connection histories over raw, local-socket and WebSocket peers (every request kind, malformed and hostile "
